@@ -19,7 +19,8 @@ func init() {
 			"R4 comments of the '+' pattern are never emitted (the replacer compiler maps *ast.CommentGroup to a typed nil); R5 the changelog records spans exactly as given — Changed/Unchanged build span{Start: start, End: end} from their parameters without reordering (inverted regions reported by the differ stay empty); " +
 			"R6 in the AST differ, list elements the edit script marks Identity are carried over as unchanged (their comments stay attached in the new snapshot). " +
 			"NOT decided: the interval computation itself (astdiff regions + Myers diff + line merging) — algorithmic, not decidable by shape; attachment of comments by go/printer." +
-			" R8 edit regions stop at the neighbours' comments (regions[i] reported as computed, monotone comment clamps, position-only classification in commentsFor); R1 also: File.Comments is only assigned the clean-up step's filtered own list.",
+			" R8 edit regions stop at the neighbours' comments (regions[i] reported as computed, monotone comment clamps, position-only classification in commentsFor); R1 also: File.Comments is only assigned the clean-up step's filtered own list." +
+			" R9 the text emitted for a file is not a window into a buffer re-used for another file (C03-R12).",
 		Trusted:     commonTrusted,
 		Assumptions: commonAssumptions,
 	})
@@ -33,6 +34,8 @@ func runC17(r *an.Run) {
 	c17IdentityUnchanged(r)
 	oneFileSet(r, "R7-one-fileset-for-patch-and-targets")
 	c17EditRegions(r)
+	// the text (and so the comments) emitted for a file is that file's
+	noTransientBufferRetained(r, "R9-kept-bytes-are-not-a-window-into-a-reused-buffer")
 }
 
 func c17NoCommentConstructed(r *an.Run) {
@@ -548,8 +551,8 @@ func c17IdentityUnchanged(r *an.Run) {
 				fromP, toP := commentCarrier(g)
 				args := calls[0].Common().Args
 				if fromP >= 0 && fromP < len(args) && toP < len(args) {
-					good = strings.HasPrefix(an.Path(args[fromP]), f.Params[len(f.Params)-2].Name()+".Children[") &&
-						strings.HasPrefix(an.Path(args[toP]), f.Params[len(f.Params)-1].Name()+".Children[")
+					good = strings.HasPrefix(an.Path(args[fromP]), an.ParamName(f.Params[len(f.Params)-2])+".Children[") &&
+						strings.HasPrefix(an.Path(args[toP]), an.ParamName(f.Params[len(f.Params)-1])+".Children[")
 				}
 			}
 		}
@@ -677,7 +680,7 @@ func containmentPredicate(call *ssa.Call, elem func(ssa.Value) bool, classifyWit
 	}
 	field := func(name string) func(ssa.Value) bool {
 		return func(v ssa.Value) bool {
-			return !isAddr(v) && an.Path(v) == ip.Name()+"."+name
+			return !isAddr(v) && an.Path(v) == an.ParamName(ip)+"."+name
 		}
 	}
 	paths, err := an.EnumeratePaths(h, func(c ssa.Value) string {
